@@ -19,6 +19,14 @@ for r in rs:
     cls, why = notes.get(key, ["UNCLASSIFIED", ""])
     surv.append({"file": r["file"], "line": r["line"], "operator": r["op"], "change": r["desc"],
                  "checks_tried": [t[0] for t in r.get("tried", [])], "classification": cls, "why": why})
+timeouts = []
+for r in rs:
+    if r["status"] == "timeout":
+        key = f"{r['file']}:{r['line']}:{r['op']}"
+        cls, why = notes.get(key, ["UNCLASSIFIED", ""])
+        timeouts.append({"file": r["file"], "line": r["line"], "operator": r["op"],
+                         "change": r["desc"], "checks_tried": r.get("tried", []),
+                         "classification": cls, "why": why})
 closed = []
 for r in rs:
     key = f"{r['file']}:{r['line']}:{r['op']}"
@@ -34,10 +42,11 @@ out = {
     "survived_both": c["survived"],
     "survivor_classes": dict(collections.Counter(s["classification"] for s in surv)),
     "gaps_closed": closed,
+    "checks_ran_out_of_time": timeouts,
     "survivors": surv,
     "detected": [{"file": r["file"], "line": r["line"], "operator": r["op"], "change": r["desc"],
                   "by": r["by"], "first": (r.get("detail") or [""])[0][:160]}
                  for r in rs if r["status"] == "detected"],
 }
 json.dump(out, open(os.path.join(root, "seeded", "MUTSCAN.json"), "w"), indent=1)
-print({k: v for k, v in out.items() if k not in ("survivors", "detected", "gaps_closed")}, len(closed), "gaps closed")
+print({k: v for k, v in out.items() if k not in ("survivors", "detected", "gaps_closed", "checks_ran_out_of_time")}, len(closed), "gaps closed")
